@@ -143,6 +143,7 @@ type Machine struct {
 	sumCache  map[sumKey]*sumEntry
 	sumCachePath map[sumKey]*sumEntry
 	pureCache map[*ssa.Function]int
+	intrCache map[*ssa.Function]intrEntry
 	cfCache   map[string]Result
 	sumCtx    *localCtx
 
@@ -165,6 +166,7 @@ func NewMachine(prog *ssa.Program, solverKind string, opts Options) (*Machine, e
 		sumCache:   map[sumKey]*sumEntry{},
 		sumCachePath: map[sumKey]*sumEntry{},
 		pureCache:  map[*ssa.Function]int{},
+		intrCache:  map[*ssa.Function]intrEntry{},
 		cfCache:    map[string]Result{},
 	}
 	m.stats.pathsByEnd = map[string]int{}
